@@ -14,7 +14,7 @@ ASSUMPTIONS = [
 
 
 def jobs(tier, oracle):
-    def job(gname, n, budget, prefix=3, must=True):
+    def job(gname, n, budget, prefix=3, must=False):
         name = f"{oracle}_{gname}_{n}"
         g = H.REGISTRY[name][0]
         return Job("harness.c04", name, H.shards_for(name, prefix), budget,
